@@ -75,6 +75,14 @@ type World struct {
 	Prefer func(acts []Action) int
 	// OnAction is told which action is about to run.
 	OnAction func(a *Action)
+	// PCT switches the picker to priority-based scheduling (PCT style): every actor (goroutine tag or
+	// environment source) gets a random priority, the highest-priority enabled action runs, and at
+	// PCTChanges random steps the running actor is demoted below everyone else. Produces long runs of one
+	// goroutine and starvation of others, which a uniform random walk rarely does.
+	PCT        bool
+	PCTChanges []int
+	pctPrio    map[string]int
+	pctLow     int
 	// Fair switches the picker to round-robin (drain phase).
 	Fair   bool
 	fairN  int
@@ -294,6 +302,8 @@ func (w *World) Run(done func() bool, maxSteps int, horizon time.Duration) bool 
 			if w.Fair {
 				k = w.fairN % len(acts)
 				w.fairN++
+			} else if w.PCT {
+				k = w.pickPCT(acts)
 			} else {
 				k = w.Ch.Choose(len(acts))
 			}
@@ -311,6 +321,43 @@ func (w *World) Run(done func() bool, maxSteps int, horizon time.Duration) bool 
 		}
 		acts[k].Do()
 	}
+}
+
+func actorOf(a *Action) string {
+	if a.Req != nil {
+		return "g:" + a.Req.GTag
+	}
+	// environment / network / server actions: one actor per source (label up to the first digit run)
+	l := a.Label
+	if i := strings.IndexAny(l, "#"); i > 0 {
+		l = l[:i]
+	}
+	return "e:" + l
+}
+
+func (w *World) pickPCT(acts []Action) int {
+	if w.pctPrio == nil {
+		w.pctPrio = map[string]int{}
+	}
+	best, bestP := 0, -1<<30
+	for i := range acts {
+		actor := actorOf(&acts[i])
+		pr, ok := w.pctPrio[actor]
+		if !ok {
+			pr = 1000 + w.Ch.Choose(1000000)
+			w.pctPrio[actor] = pr
+		}
+		if pr > bestP {
+			best, bestP = i, pr
+		}
+	}
+	for _, cp := range w.PCTChanges {
+		if cp == w.Steps {
+			w.pctLow--
+			w.pctPrio[actorOf(&acts[best])] = w.pctLow
+		}
+	}
+	return best
 }
 
 // Shutdown terminates every goroutine of the system under test that reaches a hook, fails all
